@@ -136,6 +136,25 @@ Theorem C11_type_round_trip_decimal :
 Proof. exact type_round_trip_decimal. Qed.
 Print Assumptions C11_type_round_trip_decimal.
 
+(* The three statements above as one, over the guard [roundtrippable] (Model/C11.v) that the correspondence
+   evaluates on every column the implementation is run on: member type, not excluded, ARRAY with an accepted,
+   non-excluded element type, DECIMAL with 1 <= p <= 38 and 0 <= s <= p, nothing else set. *)
+Theorem C11_type_round_trip :
+  forall c : column,
+  roundtrippable c = true ->
+  exists f, arrow_field c = Ok f /\ fname f = cname c /\
+            from_arrow_field false f = Ok (mkCol (cname c) (ctype c) (celem c) (cprec c) (cscale c) (fnullable f)).
+Proof. exact type_round_trip. Qed.
+Print Assumptions C11_type_round_trip.
+
+(* The run-time form of the typing clause ([came_back], applied by the correspondence to what the implementation
+   returned) holds of the model for every column: it can fail only where the implementation leaves the model. *)
+Theorem C11_typing_check_holds_of_model :
+  forall c : column,
+  came_back c (arrow_field c) (bind (arrow_field c) (from_arrow_field false)) = true.
+Proof. exact came_back_model. Qed.
+Print Assumptions C11_typing_check_holds_of_model.
+
 (* The carve-out, stated positively: STRUCT and JSONB are carried as binary and come back as BLOB, the untyped
    placeholder is carried as string and comes back as VARCHAR - as column types and as element types. *)
 Theorem C11_binary_carried_types :
@@ -207,5 +226,8 @@ Example C11_nonvacuous_types :
   In ty_DATE (map fst c11_type_names) /\
   bind (arrow_field (mkCol [100%N] ty_DATE None None None true)) (from_arrow_field false) =
     Ok (mkCol [100%N] ty_DATE None None None true) /\
-  In ty_INTEGER accepted_elems /\ In ty_DATE accepted_elems.
+  In ty_INTEGER accepted_elems /\ In ty_DATE accepted_elems /\
+  roundtrippable (mkCol [100%N] ty_DECIMAL None (Some 10%Z) (Some 0%Z) false) = true /\
+  roundtrippable (mkCol [100%N] ty_ARRAY (Some ty_DATE) None None true) = true /\
+  roundtrippable (mkCol [100%N] ty_STRUCT None None None true) = false.
 Proof. vm_compute. repeat split; try reflexivity; tauto. Qed.
